@@ -11,9 +11,9 @@ package compactindexsized
 // (NumBuckets not a power of two) the rejection loop `for u < r` never terminates. It is
 // observed through a counting wrapper around the real hashUint64 (renamed verifOrig_hashUint64).
 func VerifC04BucketHash() {
-	ns := []uint32{1, 2, 3, 4, 5, 6, 7, 4294967295}
+	ns := []uint32{1, 2, 3, 4, 5, 7, 4294967295}
 	if verifParam("more", 0) == 1 {
-		ns = append(ns, 10, 100, 1000)
+		ns = append(ns, 6, 10, 100, 1000)
 	}
 	n := ns[verifChoice("numBuckets", len(ns))]
 	key := []byte{1, 2, 3}
